@@ -49,7 +49,7 @@ WALL_BUDGET = {"quick": 1500, "thorough": 4 * 3600}
 
 
 def cases(seed, tier):
-    n = 72 if tier == "quick" else 1500
+    n = 72 if tier == "quick" else 900
     out = []
     kinds = ["comp", "branch", "cell", "cell", "cell", "cell", "network", "network"]
     for k in range(n):
